@@ -214,6 +214,25 @@ def run(ctx):
     finally:
         shutil.rmtree(tmpd, ignore_errors=True)
 
+    # ---- mergesort whose operands are sort views with the same key, the key positional or absent and the fields in another order
+    for ci in range(90 if ctx.thorough() else 30):
+        A = [['a', 'b', 'c']] + [[rng.choice([0, 1, 2]), rng.choice(['b', 'x']), rng.choice([0, 5])] for _ in range(rng.choice([0, 1, 3]))]
+        B = [['b', 'a']] + [[rng.choice([0, 1, 'b']), rng.choice([0, 1, 2])] for _ in range(rng.choice([1, 2, 4]))]
+        key = rng.choice([0, None, 1, 'a', ('b', 'a')])
+        rev = rng.random() < 0.3
+        try:
+            Bv = etl.sort(B, key, reverse=rev)
+            Av = etl.sort(A, key, reverse=rev)
+            got = util.run_show(lambda: etl.mergesort(Av, Bv, key=key, reverse=rev))
+            want = util.run_show(lambda: etl.sort(etl.cat([tuple(r) for r in Av], [tuple(r) for r in Bv]), key, reverse=rev))     # of the tables the views stand for
+        except proto.Unencodable:
+            continue
+        ctx.case(('ms-sortview-operands', repr(A), repr(B), repr(key), rev))
+        ctx.count('mergesort:sort-view-operands')
+        if got != want:
+            ctx.spec_fail('mergesort|differs|sort-view-operands', 'mergesort over operands that are sort views differs from sort(cat(tables))',
+                          {'a': repr(A), 'b': repr(B), 'key': repr(key), 'reverse': rev, 'real': got, 'sort(cat)': want})
+
     # ---- operands that are sort views
     util.view_operand_cases(etl, rng, ctx, [
         ('sort', 1, lambda t: etl.sort(t, 'x')), ('sort(reverse)', 1, lambda t: etl.sort(t, 'x', reverse=True)),
